@@ -1,0 +1,25 @@
+//go:build verif
+
+package window
+
+import "time"
+
+// Idle-source stepping for the external verification harness (build tag verif, property C02).
+// Watermark.update compares the wall clock with the wall-clock stamp of the last event; the harness
+// lets time pass by making that stamp older (UpdateEventTime and update keep reading the real clock).
+
+func verifAgeSource(wm *Watermark, d time.Duration) {
+	if wm == nil {
+		return
+	}
+	wm.mu.Lock()
+	defer wm.mu.Unlock()
+	if !wm.lastEventTime.IsZero() {
+		wm.lastEventTime = wm.lastEventTime.Add(-d)
+	}
+}
+
+// VerifAgeSource: d passes without an event.
+func (tw *TumblingWindow) VerifAgeSource(d time.Duration) { verifAgeSource(tw.watermark, d) }
+func (sw *SlidingWindow) VerifAgeSource(d time.Duration)  { verifAgeSource(sw.watermark, d) }
+func (sw *SessionWindow) VerifAgeSource(d time.Duration)  { verifAgeSource(sw.watermark, d) }
